@@ -241,6 +241,13 @@ def check_reexecution(acc, case, other, plan):
             job.request_stop()
             labels.append('stop-request-between-runs')
             continue
+        if step[0] == 'run-as-agent':
+            # the way the job runner starts a run: a left-over stop request
+            # is cleared first (Agent.execute), then the job is executed
+            clear = getattr(job, 'clear_stop', None)
+            if clear is not None:
+                clear()
+            labels.append('run-started-the-job-runner-way')
         stop_after = step[1] if step[0] == 'stop' else None
         trace, stopped, res = execute(world, job, population, stop_after)
         if stopped:
@@ -354,7 +361,7 @@ def plan(tier, seed_value):
 PLAN_STEP = st.one_of(
     st.just(['run']), st.just(['run']),
     st.tuples(st.just('stop'), st.integers(1, 6)).map(list),
-    st.just(['stop-when-idle']),
+    st.just(['stop-when-idle']), st.just(['run-as-agent']),
     st.just(['reload']))
 
 
@@ -372,7 +379,14 @@ def run_shard(spec):
         @seed(spec['seed'])
         @progbase.hyp_settings(spec['examples'])
         @given(gen.programs(PROFILE), gen.programs(PROFILE),
-               st.lists(PLAN_STEP, min_size=1, max_size=3))
+               st.one_of(
+                   st.lists(PLAN_STEP, min_size=1, max_size=3),
+                   st.lists(PLAN_STEP, min_size=1, max_size=3),
+                   # every way of starting a run, with stop requests that
+                   # arrive between the runs
+                   st.lists(st.sampled_from(
+                       [['run'], ['run-as-agent'], ['stop-when-idle']]),
+                       min_size=3, max_size=6)))
         def run(case, other, steps):
             check_reexecution(acc, case, other, [list(s) for s in steps])
         run()
